@@ -43,6 +43,16 @@ Section Wf.
   Definition wf_obj (c : jclass) (o : obj) : bool :=
     list_eqb str_eqb (map fst o) (map fst (jc_fields c)) && forallb (fun kv => field_ok c (fst kv) (snd kv)) o.
 
+  (* what decoding can produce (and what the constructors can produce beyond wf_obj): a field holds its default or ANY
+     value the class accepts -- also one that the encoder will drop (Capacities None/False) *)
+  Definition semi_ok (c : jclass) (k : str) (v : json) : bool :=
+    match aget k (jc_fields c) with
+    | None => false
+    | Some d => json_eqb v d || (elem_ok c k v && jwfb v && no_obj v)
+    end.
+  Definition semi_wf (c : jclass) (o : obj) : bool :=
+    list_eqb str_eqb (map fst o) (map fst (jc_fields c)) && forallb (fun kv => semi_ok c (fst kv) (snd kv)) o.
+
   (* the encoder's drop rule loses nothing: a value the class accepts and the encoder removes is the default
      of every field (checked over the finitely many values a drop rule can remove) *)
   Definition droppable : list json := [JNull; JInt 0%Z; JBool false; JFloat (S"0.0"); JFloat (S"-0.0")].
@@ -54,6 +64,19 @@ Section Wf.
                       || negb (is_none (check_value c v) && dropped (jc_json_drop c) v)
                       || forallb (fun kv => json_eqb v (snd kv)) (jc_fields c)) droppable.
 End Wf.
+
+(* the value that an encode / decode cycle turns o into: fields the encoder drops come back as the default *)
+Definition norm_obj (c : jclass) (o : obj) : obj :=
+  map (fun kv => (fst kv, if dropped (jc_json_drop c) (snd kv) then fld (fst kv) (jc_fields c) else snd kv)) o.
+(* the defaults themselves are dropped (or nothing is): normalising does not change the encoding *)
+Definition norm_stable (c : jclass) : bool :=
+  match jc_json_drop c with
+  | DropNothing => true
+  | r => forallb (fun kv => dropped r (snd kv)) (jc_fields c)
+  end.
+(* a parsed JSON object whose member values contain no nested dict *)
+Definition flat_obj (j : json) : bool :=
+  match j with JObj d => forallb (fun kv => no_obj (snd kv)) d | _ => false end.
 
 Definition nothing_kept (c : jclass) (o : obj) : bool :=
   match kept (jc_json_drop c) o with [] => true | _ => false end.
